@@ -32,6 +32,18 @@ CLAIMED = {
              'strong duality (a fact about cones, not the code) is not proved; scipy.sparse row selection trusted.',
         technique='Lean 4 proof (list induction over cone sequences, generic ring) + model/implementation correspondence check',
         design_ref='DESIGN.md 4/C10'),
+    'C12': dict(
+        text='Homomorphism theorems (coefficient level and evaluation against any multiplicative character of the exponent '
+             'monoid) and representation invariants about a Lean model of Signomial/Polynomial construction, sum, product, '
+             'without_zeros, +,-,*,/,**, ==, query_coeff that reproduces the row ORDER of alpha/c the numpy code produces. '
+             'Tied to the code by random expression trees compared at representation level; constants (7-decimal rounding, '
+             '1e-8 tolerance, numeric types) are regenerated from the source and pinned by theorems. An exact rational '
+             'reference confirms failures on the implementation.',
+        note='function equality is decided at coefficient level (linear independence of distinct exponentials not formalised); '
+             'float64 arithmetic is exact on the generated domain by construction of the generator; mixed Signomial/Polynomial '
+             'operands are not claimed.',
+        technique='Lean 4 proof (list induction, commutative-ring algebra) + generated constants + model/implementation correspondence check',
+        design_ref='DESIGN.md 4/C12'),
 }
 
 NOT_YET = 'check not built yet in this session (planned, see DESIGN.md section 6); not claimed until its theorems and correspondence exist'
